@@ -3,6 +3,7 @@
 from __future__ import annotations
 
 import ast
+import copy
 
 from ..cfg import cfg_of
 from ..model import AnalysisError, call_name, calls_in, dotted, norm, walk_no_nested
@@ -217,7 +218,7 @@ def check_state_methods(ctx):
         ok = len(props) >= 1
         ctx.ob("C18.O1", q, ok, "the parent is propagated to" if ok else "no parent propagation call", key="propagate", where=f.where)
         if ok:
-            table = _propagation_table(cfg, props, meth, param)
+            table = _propagation_table(cfg, props, meth, param, _pure_state_helpers(repo))
             facts[meth] = table
             ok = table is not None and all(v == "canonical" for v in table.values())
             ctx.ob("C18.O1", q, ok, "parent propagation: ascend iff a parent exists and the other state is absent or has a different parent, passing the other state's parent (exactly one call)" if ok else
@@ -236,7 +237,57 @@ def check_state_methods(ctx):
     ctx.ob("C18.O1", "State.__init__", init_ok, "a state starts active iff it is declared initial" if init_ok else "the initial active flag is not the `initial` argument", where=init.where)
 
 
-def _propagation_table(cfg, props, meth, param):
+def _pure_state_helpers(repo):
+    """Methods of State that only read: no store to an attribute or element, no call except to each other, isinstance and
+    len.  They are interpreted on the abstract states like the guard expressions themselves (loops are fuel-limited)."""
+    cls = repo.cls("State")
+    pure = {}
+    for name, f in cls.methods.items():
+        node = f.node
+        if name in ("__init__", "enter", "leave") or node.decorator_list:
+            continue
+        writes = any(isinstance(t, (ast.Attribute, ast.Subscript)) for x in ast.walk(node) if isinstance(x, (ast.Assign, ast.AugAssign, ast.AnnAssign, ast.Delete))
+                     for t in (x.targets if isinstance(x, (ast.Assign, ast.Delete)) else [x.target]))
+        if writes or any(isinstance(x, (ast.Global, ast.Nonlocal, ast.Yield, ast.Await, ast.Import, ast.ImportFrom)) for x in ast.walk(node)):
+            continue
+        pure[name] = f
+    changed = True
+    while changed:
+        changed = False
+        for name, f in list(pure.items()):
+            for c in calls_in(f.node):
+                cn = call_name(c) or ""
+                if cn in ("isinstance", "len") or ("." in cn and cn.rsplit(".", 1)[1] in pure):
+                    continue
+                del pure[name]
+                changed = True
+                break
+    fuel = [20000]
+
+    def _fuel():
+        fuel[0] -= 1
+        if fuel[0] < 0:
+            raise RuntimeError("helper loop does not end on the abstract states")
+        return True
+
+    out = {}
+    for name, f in pure.items():
+        node = copy.deepcopy(f.node)
+        node.returns = None
+        node.decorator_list = []
+        for a in node.args.args + node.args.kwonlyargs:
+            a.annotation = None
+        for x in ast.walk(node):
+            if isinstance(x, ast.While):
+                x.test = ast.BoolOp(op=ast.And(), values=[ast.Call(func=ast.Name(id="_fuel", ctx=ast.Load()), args=[], keywords=[]), x.test])
+        mod = ast.fix_missing_locations(ast.Module(body=[node], type_ignores=[]))
+        ns = {"_fuel": _fuel}
+        exec(compile(mod, f"<abstract {name}>", "exec"), ns)  # noqa: S102 - a read-only predicate, applied to abstract states only
+        out[name] = ns[name]
+    return out
+
+
+def _propagation_table(cfg, props, meth, param, helpers=None):
     """Evaluate the guards and the argument of every propagation call over the finite abstraction
     (self.parent in {None, P}, OTHER in {None, state with parent P, state with parent Q, state without parent}) and
     compare with the canonical rule: exactly one call happens iff a parent exists and OTHER is absent or has another
@@ -247,10 +298,13 @@ def _propagation_table(cfg, props, meth, param):
             self._parent = parent
             self.label = label
 
+    for name, fn in (helpers or {}).items():  # side-effect free predicates of State (e.g. an ancestry test) read the same abstract states
+        setattr(S, name, fn)
     P, Q = S(None, "P"), S(None, "Q")
     table = {}
     for self_parent in (None, P):
-        for other in (None, S(P, "child of P"), S(Q, "child of Q"), S(None, "root"), P):  # P itself: a transition between a composite and its own child
+        # P itself: a transition between a composite and its own child; a grandchild of P: a transition between different depths below one ancestor
+        for other in (None, S(P, "child of P"), S(Q, "child of Q"), S(None, "root"), P, S(S(P, "another child of P"), "grandchild of P")):
             env = {"self": S(self_parent, "self"), param: other}
             label = f"parent={'P' if self_parent else None}, other={other.label if other else None}"
             try:
